@@ -139,6 +139,18 @@ class Ctx:
             module, cfg or "", r["distinct"], r["generated"], r["depth"], r["wall"]))
         return r
 
+    def apalache(self, module, args, timeout=600):
+        """Apalache run in the scratch spec directory; returns (ok, output)."""
+        out_dir = self.path("apalache-out-%d" % self.tlc_n)
+        self.tlc_n += 1
+        cmd = ["apalache-mc", "check", "--out-dir=" + out_dir] + list(args) + [module + ".tla"]
+        try:
+            p = subprocess.run(cmd, cwd=self.specdir, stdout=subprocess.PIPE, stderr=subprocess.STDOUT, timeout=timeout,
+                               text=True, errors="replace")
+        except subprocess.TimeoutExpired:
+            raise Inconclusive("apalache timeout on " + module)
+        return ("EXITCODE: OK" in p.stdout and p.returncode == 0), p.stdout
+
     # ------------------------------------------------------------------ Go
     def harness(self, pkg="stun", tags=("verif",), race=False):
         key = (pkg, tuple(tags), race)
